@@ -117,9 +117,15 @@ def hazards(ctx: Ctx, funcs, clause: str = "S0"):
     from rules.deadformal import dead_formals
     from rules.flatindex import flat_index_sites
     from rules.cursor import cursor_skips
+    from rules.flagpaths import partially_honoured_flags
+    from rules.iterstate import leaking_accumulators
     from sa.astutil import u
     col = ctx.col
     n = 0
+    from rules.controls import run_controls
+    ctl = run_controls()  # raises AnalysisError (exit 2) if a zero-count rule went blind
+    col.ob("G0", clause, "rule-controls::each-zero-count-rule-fires-on-its-violating-snippet-and-not-on-the-twin", True, "", "", 0,
+           sample=ctl, nontrivial=False)
     for f in funcs:
         if f.parent is not None or f.is_overload:
             continue
@@ -183,6 +189,18 @@ def hazards(ctx: Ctx, funcs, clause: str = "S0"):
                        (f"`{u(bcs[0]['node'])}` caches {bcs[0]['why']} by reference: after an in-place edit by the caller the "
                         f"validity test compares the object with itself and a stale result is served") if bcs else "", rel,
                        bcs[0]["node"].lineno if bcs else f.line, sample=[(x["attr"], x["why"]) for x in cs], nontrivial=False)
+        for r_ in partially_honoured_flags(f):
+            col.ob("G36", clause, f"{where}::option-{r_['flag']}-honoured-on-every-path-to-a-return", r_["ok"],
+                   (f"the return at line {getattr(r_['ret'], 'lineno', '?')} of {f.qualname} is reached both by paths that test "
+                    f"`{r_['flag']}` and by paths that do not: the option's effect sits inside one arm of an unrelated conditional, "
+                    f"so on the other arm the caller's choice is ignored") if not r_["ok"] else "", rel,
+                   getattr(r_["ret"], "lineno", f.line) if not r_["ok"] else f.line, sample=dict(paths=r_["n_paths"]), nontrivial=False)
+        for r_ in leaking_accumulators(f):
+            col.ob("G37", clause, f"{where}::accumulator-self.{r_['attr']}-re-created-per-iteration", r_["ok"],
+                   (f"`{u(r_['node'])[:70]}` fills `self.{r_['attr']}` while iterating and __iter__ does not re-create it at its "
+                    f"start: what one epoch leaves unfinished (e.g. incomplete batches that are dropped) is delivered in the next "
+                    f"epoch, so an index appears twice and the batches depend on the history") if not r_["ok"] else "", rel,
+                   r_["node"].lineno, nontrivial=False)
         cs_ = cursor_skips(f)
         if cs_:
             bcs_ = [x for x in cs_ if not x["ok"]]
